@@ -155,6 +155,30 @@ def judge_run(j, ranks, ref_ranks, nprocs):
                           ("rhs_filtered", 1e-11, 1e-12), ("pcgj_sol", 1e-6, 1e-7), ("pcgmg_sol", 1e-6, 1e-7)):
         m = j.merged_consistent(vecs_of(ranks, name), name, 1e-9 if "sol" in name else 1e-12, 1e-9 if "sol" in name else 1e-13)
         j.compare_ref(m, vecs_of(ref_ranks, name)[0], name, rel, ab)
+    # grid transfer across all level pairs (incl. layer boundaries: muxer join/split, ghost send/recv)
+    names = set()
+    for recs in ref_ranks:
+        for r in recs:
+            if r.get("t") == "vec" and (r["name"].startswith("rest_to_L") or r["name"].startswith("prol_")):
+                names.add(r["name"])
+    for name in sorted(names):
+        vs = vecs_of(ranks, name)
+        if not any(vs):
+            j.viol("transfer." + name.split("_L")[0], "level-missing", dict(name=name))
+            continue
+        m = j.merged_consistent(vs, name, 1e-11, 1e-12)
+        j.compare_ref(m, vecs_of(ref_ranks, name)[0], name, 1e-10, 1e-12)
+        # (only on meshes without boundary charts: chart adaption moves fine boundary vertices, so the fine space does not
+        #  contain the coarse one there and the clause 'same function on the fine mesh' does not apply at those DOFs)
+        if name.startswith("prol_lin_to_L") and m is not None and j.desc.get("mesh") in NESTED_MESHES:
+            # prolongating a function of the coarse space must give its fine interpolant (computed on the same ranks)
+            exp = j.merged_consistent(vecs_of(ranks, name.replace("prol_lin_to_L", "lin_interp_L")), "lin_interp", 1e-12, 1e-13)
+            if exp is not None:
+                for k, v in m.items():
+                    j.events += 1
+                    if k not in exp or not close(v, exp[k], 1e-11, 1e-12):
+                        j.viol("transfer.prol_lin", "not-the-fine-interpolant", dict(key=[k[0] * 1e-7, k[1] * 1e-7], got=v, expected=exp.get(k), name=name))
+                        break
     # rhs: sum of the pre-sync contributions equals the serial vector
     pre = vecs_of(ranks, "rhs_pre")
     tot = {}
@@ -193,6 +217,9 @@ def judge_run(j, ranks, ref_ranks, nprocs):
 # (mesh file, finest level, coarsest level)
 MESHES = [("unit-square-quad.xml", [4, 3], 0), ("unit_circle_quad_5.xml", [2, 3], 0), ("l-shape-quad.xml", [3], 0),
           ("square_circle_hole_quad_9.xml", [2], 0), ("unit-square-quad-aniso.xml", [3], 0)]
+
+
+NESTED_MESHES = ("unit-square-quad.xml", "unit-square-quad-aniso.xml", "l-shape-quad.xml")
 
 
 def level_string(rng, lmax, lmin, p, layered):
